@@ -112,6 +112,8 @@ pub fn spaces(tier: Tier) -> Vec<Space<'static>> {
         let bottom = if i % 2 == 0 { RVal::u(256) } else { RVal::arr(vec![]) };
         check_value(&gen::chain(depth, shape, bottom), acc)
     }));
+    let sd = crate::checks::scale::docs().clone();
+    sp.push(Space::new("scale (counts/lengths/offsets across 2^8, 2^16, 2^20)", sd.len() as u64, move |i, acc| crate::checks::scale::whole_doc(&sd[i as usize], acc)));
     if tier.thorough() {
         let d1 = univ::d1();
         sp.push(Space::new("d1", d1.len() as u64, move |i, acc| check_value(&d1[i as usize], acc)));
